@@ -161,6 +161,9 @@ class C18(CheckBase):
             if k == 'diag':
                 v['opts'] = rng.choice([['--verbose'], ['--show-config'], ['--verbose', '--show-config'], ['--show-config', '--verbose']])
                 v['pos'] = rng.choice(['pre', 'post', 'split'])
+                if rng.chance(0.3):
+                    v['errfault'] = 1 + rng.below(1 << 30)
+                    v['pos'] = 'pre'
             elif k == 'ui':
                 v['ui'] = rng.choice(UIS)
                 v['pos'] = rng.choice(['pre', 'post'])
@@ -233,6 +236,29 @@ class C18(CheckBase):
                 if r.exit_class() != base.exit_class() or r['stdout'] != base['stdout']:
                     out.violate('C18.a', '%s vs %s: %s -> %s, stdout %s' % (' '.join(bargv[1:]), ' '.join(argv[1:]), base.exit_class(), r.exit_class(),
                                                                            'identical' if r['stdout'] == base['stdout'] else 'differs'), desc, self.atom(case, v))
+                if v.get('errfault') and '--verbose' in v['opts'] and src.startswith('generated') and not r.timeout:
+                    # the diagnostics themselves may fail to be written (stderr on a full device, a closed pipe): that is
+                    # no reason for the command to compute anything else.  One run per chosen write boundary of stderr.
+                    import re
+                    t = run(pre, post, untraced_stderr=False, want_log=True, steps=2000000)[0]
+                    out.add_run(t, ref=True)
+                    ends, tot = [0], 0
+                    for m in re.finditer(r'write stderr want (\d+) -> (\d+)', t.get('log', '')):
+                        tot += int(m.group(2))
+                        ends.append(tot)
+                    ends = ends[:-1] or [0]
+                    from sim.prng import Rng
+                    frng = Rng.derive(v['errfault'], 'errfault')
+                    for K in sorted(set(frng.choice(ends) for _ in range(8))):
+                        rf = run(pre, post, untraced_stderr=False, steps=2000000,
+                                 faults=[{'op': 'wfail', 'target': 'stderr', 'errno': frng.choice(['EIO', 'ENOSPC', 'EPIPE']), 'at': K}])[0]
+                        out.add_run(rf)
+                        out.fault('stderr-wfail', rf.fired() > 0)
+                        if rf.exit_class() != base.exit_class() or rf['stdout'] != base['stdout']:
+                            out.violate('C18.a', '%s vs %s with stderr refusing writes from byte %d: %s -> %s, stdout %s' % (
+                                ' '.join(bargv[1:]), ' '.join(argv[1:]), K, base.exit_class(), rf.exit_class(),
+                                'identical' if rf['stdout'] == base['stdout'] else 'differs'), dict(desc, variant='diag+stderr-fault'), self.atom(case, v))
+                            break
             elif k in ('ui', 'columns'):
                 pre, post = list(bpre), list(bg)
                 ui = v.get('ui')
